@@ -191,6 +191,28 @@ theorem nonstrict_never_raises {c : Cfg} {rt : RT} (hrt : RTOK c rt) (hs : c.str
 example : runPrelude { strict := true } { importNs := fun _ => none, data := fun _ => none, builtins := fun _ => none }
     (emit { strict := true } { undeclared := ["x".toList] } true false none ["x".toList] 1) = .error "x".toList := by rfl
 
+/-- A key bound in the context to ANY value – `None` included – resolves to that value before the builtins, strict or
+not: `Context.__getitem__`, `Context.get` (regenerated: they test key membership, not the value) and every shape of
+the generated fetch statement return it; no `NameError` / `KeyError`. -/
+theorem context_value_none_is_still_bound {c : Cfg} {rt : RT} (hrt : RTOK c rt) (x : Name) (v dflt : Val)
+    (hd : rt.data x = some v) (hi : rt.importNs x = none) :
+    Generated.Names.ctxGetItemByMembership = true ∧ Generated.Names.ctxGetByMembership = true ∧
+    ctxGetItem rt x = some v ∧ ctxGet rt x dflt = v ∧
+    (v ≠ .undefined → fetchExpr c rt x = .val v) ∧ Spec.fetch c.strict rt x = .val v := by
+  refine ⟨by decide, by decide, ?_, ?_, ?_, ?_⟩
+  · simp [ctxGetItem, boundIn_getitem, hd]
+  · simp [ctxGet, boundIn_get, hd]
+  · intro _
+    have h := fetchExpr_refines hrt x
+    simp only [Spec.fetch, hi, hd] at h
+    cases hf : fetchExpr c rt x with
+    | val w => rw [hf] at h; simp at h; rw [h]
+    | nameError => rw [hf] at h; simp at h
+  · simp [Spec.fetch, hi, hd]
+
+example : ctxGetItem { importNs := fun _ => none, data := fun _ => some .pyNone, builtins := fun _ => some (.obj 3) } "id".toList
+    = some .pyNone := by decide
+
 /-! ## context_isolated -/
 
 /-- `_copy`, `_locals`, `_clean_inheritance_tokens` and `kwargs` leave every existing dictionary – in particular
